@@ -110,7 +110,7 @@ impl Ctx {
         self.known_witness.push(json!({"finding": finding, "reproduced": reproduced, "what": what}));
     }
 
-    pub fn finish(self, outdir: &str, drv: &str) -> std::io::Result<()> {
+    pub fn finish(mut self, outdir: &str, drv: &str) -> std::io::Result<()> {
         std::fs::create_dir_all(outdir)?;
         // run the model driver on all requests
         let req_path = format!("{}/req.txt", outdir);
@@ -150,6 +150,8 @@ impl Ctx {
                 Err(e) => driver_error = Some(format!("driver spawn: {}", e)),
             }
         }
+        let slow = crate::iso::SLOW_CASES.load(std::sync::atomic::Ordering::Relaxed);
+        if slow > 0 { self.counters.entry("isolated.slow_cases_answered_on_retry".into()).and_modify(|v| *v += slow).or_insert(slow); }
         let res = json!({
             "property": self.prop, "seed": self.seed,
             "tier": if self.tier == Tier::Quick { "quick" } else { "thorough" },
